@@ -21,7 +21,10 @@ KEYS = ['x', 'X-Custom', 'future_option', 'a1', 'mimetype2', 'Length', 'lengths'
         # names that are identifiers inside the library (parameters, attributes): an unknown option
         # is data, whatever it is called
         'keep_bytes', 'self', 'preserve_trailing_newline', 'fp', 'content', 'section', 'options', 'kwargs', 'linenum',
-        'level', 'type', 'text', 'metadata', 'diff', 'valid_sections', 'chunk_size', 'newline', 'lines']
+        'level', 'type', 'text', 'metadata', 'diff', 'valid_sections', 'chunk_size', 'newline', 'lines',
+        # … or names of methods / attributes of the containers the options travel in
+        'get', 'items', 'pop', 'update', 'keys', 'values', 'clear', 'copy', 'setdefault', 'popitem', 'fromkeys',
+        'id', 'name', 'n', 'c', 'coding', 'enc', 'in']
 VALUES = ['1', 'yes', 'abc', '007', '-5', 'text/plain', 'a.b_c-d', 'v' * 300, 'w' * 1100, 'x' * 5000, '0', 'utf-8', 'unix', '12345678901234567890123', 'A/B/c']
 
 
